@@ -10,7 +10,7 @@ from vfacts import strip, walk, method_name, is_node
 from .prov import var_table, local_sources
 
 RULE = 'HASHCONS'
-FLOOR = 5
+FLOOR = 3
 TPS = 'std::set<std::shared_ptr<std::vector<unsigned long'
 TP = 'std::shared_ptr<std::vector<unsigned long'
 
